@@ -49,6 +49,11 @@ Fixpoint read_chunks (cs : list (Z * list Z)) (off n : Z) : list Z :=
 Definition fread (f : file) (off n : Z) : list Z :=
   if off <? 0 then [] else read_chunks (fl_chunks f) off (Z.min n (fl_size f - off)).
 
+(* firstn / skipn with a Z count, never materialising a count larger than the list
+   (image-derived sizes go up to 2^32 and 2^64; these are equal to firstn / skipn, see Proofs) *)
+Definition zfirstn {A} (n : Z) (l : list A) : list A := firstn (Z.to_nat (Z.min n (zlen l))) l.
+Definition zskipn {A} (n : Z) (l : list A) : list A := skipn (Z.to_nat (Z.min n (zlen l))) l.
+
 (* ---------- packed little-endian structs, field by field ---------- *)
 Definition widths (l : list field) : list Z := map Base.Layout.f_size l.
 
@@ -150,13 +155,13 @@ Fixpoint walk (fuel : nat) (raw : list Z) (size eoff : Z) : res (list rentry) :=
     match fuel with
     | O => Fuel
     | S fuel' =>
-        match parse_khdr (skipn (Z.to_nat eoff) raw) with
+        match parse_khdr (zskipn eoff raw) with
         | None => Err
         | Some h =>
             if kh_size h =? 0 then Ok [] else
             do rest <- walk fuel' raw size (eoff + kh_size h);
             Ok ({| r_off := eoff; r_hdr := h;
-                   r_raw := slice raw (eoff + kent_hsize) (kh_size h - kent_hsize) |} :: rest)
+                   r_raw := zfirstn (kh_size h - kent_hsize) (zskipn (eoff + kent_hsize) raw) |} :: rest)
         end
     end
   else Ok [].
@@ -290,7 +295,7 @@ Definition e_value (f : file) (fo : fobjs) (r : rentry) : res value :=
       if zmem t K.blob_types then
         do payload <- (if e_is_fop r then Ok data
                        else do n <- take_uint K.len_width data;
-                            Ok (firstn (Z.to_nat n) (skipn (Z.to_nat K.len_width) data)));
+                            Ok (zfirstn n (skipn (Z.to_nat K.len_width) data)));
         if t =? E.hyperv_KeyDataType_String then
           match units_of payload with
           | Some u => if utf16_valid u then Ok (VString u) else Err
@@ -553,10 +558,12 @@ Definition decode (f : file) (paths : list (list (list Z))) :=
   match open_file f with
   | Ok p =>
       let es := live_entries (p_tables p) in
-      let ok := forallb (link_check (p_tables p)) es in
-      Ok (p_first p, h_ver (p_hdr p), p_ntables p,
-          match link (p_tables p) with Ok t => Ok (squeeze t) | Err => Err | Fuel => Fuel end,
-          if ok then map (fun pa => squeeze_shape (eget es root_id pa)) paths else [])
+      (* the linking loop runs inside HyperVFile.__init__: a failure there is a failure to open *)
+      if forallb (link_check (p_tables p)) es then
+        Ok (p_first p, h_ver (p_hdr p), p_ntables p,
+            match link (p_tables p) with Ok t => Ok (squeeze t) | Err => Err | Fuel => Fuel end,
+            map (fun pa => squeeze_shape (eget es root_id pa)) paths)
+      else Err
   | Err => Err
   | Fuel => Fuel
   end.
